@@ -1,0 +1,5 @@
+//! Verification hooks (compiled only with `--cfg rumqtt_verif`).
+//! Re-exports of otherwise crate-private items so that an external harness can drive
+//! them directly. Nothing here changes behaviour.
+
+pub use crate::segments::{CommitLog, Position, Storage};
